@@ -316,6 +316,47 @@ def gen_pagerank_graph(rng, nmax, kind):
     return n, n, ent, fam + '_' + wk
 
 
+def _source_rso(ctx, rng, quick, im):
+    """The term regenerated from ppr_solver.py (Gen/NpRso.v; theorem source_rso_mass_and_fixed_point of Props/C04.v), evaluated
+    inside Coq over exact rationals with the array semantics of Model/NpVec.v, must reproduce RandomSurferOperator.dot."""
+    from fractions import Fraction
+    from ..common import clist, cq
+    cases, exprs = [], []
+    for k in range(40 if quick else 300):
+        n, E, fam = gen.random_graph(rng, 7, directed=rng.random() < 0.7)
+        W = {}
+        for (i, j) in E:
+            W[(i, j)] = rng.choice([1, 1, 2, 3, Fraction(1, 2)])
+        dense = [[Fraction(W.get((i, j), 0)) for j in range(n)] for i in range(n)]
+        raw = [rng.randint(0, 3) for _ in range(n)]
+        if not any(raw):
+            raw[rng.randrange(n)] = 1
+        seeds = [Fraction(v, sum(raw)) for v in raw]
+        x = [Fraction(rng.randint(-4, 8), 4) for _ in range(n)]
+        damping = rng.choice([Fraction(85, 100), Fraction(1, 2), Fraction(1, 4), Fraction(0), Fraction(1)])
+        args = dict(m=dict(shape=[n, n], coo=[[i, j, float(w)] for (i, j), w in sorted(W.items())], dtype='float', fmt='csr'),
+                    seeds=[float(v) for v in seeds], x=[float(v) for v in x], damping=float(damping))
+        r = im.call('c04', 'rso_matvec', args, timeout=30)
+        ctx.traces += 1
+        if 'ok' not in r:
+            continue
+        cases.append((args, r['ok'], fam))
+        exprs.append('map qz3 (qvresult (qvdenote (qenv_rso %s %d %s %s %s) src_rso_matvec))' % (
+            clist(dense, lambda row: clist(row, cq)), n, clist([Fraction(v) for v in args['seeds']], cq), clist(x, cq), cq(Fraction(args['damping']))))
+    vals = safe_coq_eval(ctx, 'c04src', ['Base.Util', 'Model.NpExpr', 'Model.NpVec', 'Gen.NpRso'], exprs,
+                         prelude='Definition qz3 (q : Q) : Z * Z := (Qnum q, Zpos (Qden q)).\n', shard=60) if exprs else []
+    n_src = 0
+    for (args, got, fam), v in zip(cases, vals or []):
+        n_src += 1
+        ctx.count('source_term:RandomSurferOperator', ('src', args), True)
+        exp = [float(Fraction(a, b)) for (a, b) in v]
+        if len(exp) != len(got) or any(abs(a - b) > 1e-9 * max(1.0, abs(a)) for a, b in zip(exp, got)):
+            ctx.violation('RandomSurferOperator', 'the term regenerated from ppr_solver.py (src_rso_matvec), evaluated with the array '
+                          'semantics of Model/NpVec.v, differs from RandomSurferOperator.dot', case=args, expected=exp, observed=got,
+                          kind='source_term', family=fam)
+    ctx.extra['source_terms_evaluated'] = n_src
+
+
 def run(ctx, scratch):
     rng = ctx.rng
     quick = ctx.tier == 'quick'
@@ -330,6 +371,7 @@ def run(ctx, scratch):
 
     try:
         _run(ctx, rng, quick, nmax, threads_set, impl)
+        _source_rso(ctx, rng, quick, impl(1))
     finally:
         for im in impls.values():
             im.close()
